@@ -106,6 +106,13 @@ Theorem C12_layout_crossings_all_positioners : forall (A : Type) (eqA : A -> A -
 Proof. exact G9_layout_crossings'. Qed.
 Print Assumptions C12_layout_crossings_all_positioners.
 
+(* ---------- with autog.OrderingNoop no crossing number is reported at all (Model/PipelineNoop.v) ---------- *)
+From Autog Require PipelineNoop NoopPipeline2.
+Theorem C12_noop_ordering_reports_nothing : forall (A : Type) (eqA : A -> A -> bool) bk o fixed sizes es ids ns oes xs,
+  PipelineNoop.layout_n A eqA bk o fixed sizes es = Ok (ids, (ns, oes, xs)) -> xs = [].
+Proof. exact NoopPipeline2.layout_n_reports_no_crossings. Qed.
+Print Assumptions C12_noop_ordering_reports_nothing.
+
 (* ---------- regenerated from the source on every run (translator): the ordering phase does not read node identifiers, as its
    model, which contains none, assumes ---------- *)
 From Coq Require Import String.
